@@ -102,7 +102,7 @@ SLICES = {
 
 
 def run(ctx):
-    X.run_slices(ctx, SLICES, 90 if ctx.quick else 800, [
+    X.run_slices(ctx, SLICES, 80 if ctx.quick else 800, [
         'MiniFortran subset (see C01) + caller/callee structures: module subroutines (same module or imported), internal subroutines and functions with host association and local name clashes, module / elemental functions, statement functions, PARAMETER constants imported from a module or local',
         'call sites respect the Fortran aliasing rules; function callees are side-effect free; recursion excluded',
         'not generated: optional arguments / PRESENT, sequence association (resolve_sequence_association), array-section actuals, elemental references with array arguments, derived types, allowed_aliases',
